@@ -13,6 +13,11 @@ import (
 // Before has its own comment before the interfaces.
 var Before = strings.ToUpper("x") // trailing comment of Before
 
+// Mixed keeps its prose although a directive stands in the same comment.
+//
+//go:generate echo mixed
+var Mixed = 2
+
 // Repo is an ordinary interface, not a converter.
 // :nodoc:
 // :deprecated use Store instead
